@@ -250,12 +250,13 @@ def hs_line(env, rng, **kw):
     p["n"] = kw.get("n", rng.below(3000))
     p["chunk"] = kw.get("chunk", rng.choice([1, 7, 300, 4096, 16384, 16385, 40000, 65536]))
     p["seed"] = rng.next()
+    p["noise"] = kw.get("noise", rng.choice([0, 0, 0, 4, 40, 128]))
     scert = server_cert(kw.get("scert", "trusted"), p["cca"], kw.get("names", "std"))
     ccert = client_cert(kw.get("ccert", "none"), p["sca"])
     host = HOSTS[kw.get("host", "match")]
     words = ["hs"] + ["%s=%d" % (k, p[k]) for k in
                       ("ciph", "cp", "sp", "vc", "vn", "vt", "svc", "svt", "cca", "sca", "cam", "sam", "kpm",
-                       "first", "cut", "bias", "burst", "buf", "n", "chunk", "seed")]
+                       "first", "cut", "bias", "burst", "buf", "n", "chunk", "seed", "noise")]
     words += ["perm=%d" % env.perm[p["ciph"]], "pton=" + env.pton, "scert=" + scert, "ccert=" + ccert,
               "host=" + ("~" if host is None else hx(host))]
     return " ".join(words)
@@ -316,7 +317,8 @@ def data_session(env, rng, nmax):
                     ccert="trusted", scert="trusted", host=rng.choice(["match", "wild", "case"]),
                     n=n, chunk=1 + rng.below(65536) if rng.chance(1, 2) else rng.choice([1, 64, 16384, 65536]),
                     buf=rng.choice([1, 1, 1, 2500, 8192, 0]), bias=rng.choice([4, 32, 128, 224, 252]),
-                    burst=rng.choice([1, 1, 3, 64]), cut=rng.choice([0, 0, 0, 0, 1, 2, 3, 4]))]
+                    burst=rng.choice([1, 1, 3, 64]), cut=rng.choice([0, 0, 0, 0, 1, 2, 3, 4]),
+                    noise=rng.choice([0, 0, 1, 3, 10]))]
 
 
 # ---- inj
@@ -435,7 +437,7 @@ def probe(run, ca0):
     lines = []
     for ciph in (0, 1):
         for v in (2, 4, 8, 16):
-            lines.append(hs_line(env0, rng, ciph=ciph, cp=v, sp=v, vc=0, vn=0, n=1, cut=0, buf=0))
+            lines.append(hs_line(env0, rng, ciph=ciph, cp=v, sp=v, vc=0, vn=0, n=1, cut=0, buf=0, noise=0))
     for c in CIPHERS:
         if c is not None:
             lines.append("cfg ca0:%s ciphers:%s:1 |" % (hx(ca0), hx(c)))
@@ -529,7 +531,9 @@ def run_checked(ck, run, env, ca0, cipher_ok, curve_nid):
         "kernel AF_UNIX stream sockets (SO_SNDBUF/SO_RCVBUF, poll)"]
     ck.cov["rule"] = (
         "hs case = one complete session (configs, certificates made in memory, handshake, 1-byte ping-pong, n bytes "
-        "each way in random chunks <= 64 KiB, orderly close or transport cut) under a seeded schedule; "
+        "each way in random chunks <= 64 KiB, orderly close or transport cut) under a seeded schedule, with "
+        "unrelated rejected library calls (bogus cipher list / curve / key file / CA file / PEM on scratch objects, "
+        "leaving OpenSSL's error queue dirty) interleaved at rate noise/256 per step; "
         "inj case = one wrapper call on a hand-set state with 2 scripted SSL answers; cfg case = two setter "
         "sequences + tls_config_equal both ways. distinct_nontrivial = distinct op lines (hs: every session runs "
         "the real handshake; inj: every line reaches the wrapper; cfg: lines with at least one setter)")
